@@ -335,3 +335,32 @@ Proof. reflexivity. Qed.
 Example reading_literal_braces : (* {{x}} *)
   template_reading [123; 123; 120; 125; 125] = map IChar [123; 120; 125].
 Proof. reflexivity. Qed.
+
+(* one statement for whatever parse_string_literal the source has: outside the class the two
+   switches carve out, a literal reads as documented; with both repairs the class is empty *)
+Definition known_class_v (v : variant) (s : bytes) (owned : bool) : Prop :=
+  (v_owned_static v = true /\ owned = true /\ (has_byte LB s = true \/ has_byte RB s = true)) \/
+  (v_open_brace_gate v = true /\ has_byte LB s = false /\ has_byte RB s = true).
+
+Theorem literal_spec_any : forall v s owned,
+  ~ known_class_v v s owned ->
+  parts_items (parse_string_literal v s owned) = template_reading s.
+Proof.
+  intros v s owned Hk. unfold parse_string_literal.
+  assert (Plain : has_byte LB s = false -> has_byte RB s = false ->
+                  parts_items (SStatic s) = template_reading s).
+  { intros G1 G2. cbn [parts_items]. rewrite <- (app_nil_r s) at 2.
+    rewrite R_plain by assumption. rewrite R_nil, app_nil_r. reflexivity. }
+  assert (Tpl' : parts_items (match parse_template s with [] => SStatic s | g :: l => SInterp (g :: l) end)
+                 = template_reading s).
+  { pose proof (template_spec s) as T. destruct (parse_template s) as [|g segs]; [|exact T].
+    cbn in T. destruct s as [|b r]; [reflexivity|]. symmetry in T. apply R_nonempty in T. contradiction. }
+  destruct (has_byte LB s) eqn:G1; destruct (has_byte RB s) eqn:G2;
+    destruct (v_open_brace_gate v) eqn:Vg; destruct (v_owned_static v) eqn:Vo; destruct owned;
+    cbn [negb orb andb];
+    try exact Tpl'; try (apply Plain; reflexivity);
+    exfalso; apply Hk; unfold known_class_v; rewrite ?Vg, ?Vo; tauto.
+Qed.
+
+Corollary literal_spec_repaired_all : forall s owned, ~ known_class_v repaired s owned.
+Proof. intros s owned [[H _]|[H _]]; discriminate H. Qed.
